@@ -490,7 +490,12 @@ func (w *world) referenceOutput(tg renderTarget, h M) (status, text string) {
 			ref.exec(cloneJSON(op).(map[string]interface{}))
 		}
 	}
-	t := ref.table(1)
+	return freshRender(tg, ref.table(1))
+}
+
+// freshRender renders table t through a brand-new wrapper of the target's format, with the target's
+// decoration / html options.
+func freshRender(tg renderTarget, t tabular.Table) (status, text string) {
 	var rt renderTable
 	switch tg.kind {
 	case "text":
@@ -554,6 +559,20 @@ func (w *world) sameAsReference(op M, tg renderTarget, status, text string) M {
 	return M{"match": b2i(rs == status && rtxt == text), "refstatus": rs, "reflen": len(rtxt), "len": len(text)}
 }
 
+// coreTableOf: the core table a render call works on.
+func (w *world) coreTableOf(op M, tg renderTarget) tabular.Table {
+	if tg.wr != nil {
+		return w.atables[tg.wr.over-1]
+	}
+	if _, ok := op["ow"]; ok {
+		return w.atables[w.wrapperOf(opInt(op, "ow")).over-1]
+	}
+	if _, ok := op["t"]; ok {
+		return w.atables[opInt(op, "t")-1]
+	}
+	return nil
+}
+
 // ---- C14: the same bytes as the first time -------------------------------------------------------
 
 func (w *world) repeatCheck(op M, tg renderTarget, status, text string) M {
@@ -575,9 +594,20 @@ func (w *world) repeatCheck(op M, tg renderTarget, status, text string) M {
 	if status == "error" {
 		val = status
 	}
+	// ... and the same bytes as a brand-new wrapper of that format and decoration gives for this very table
+	// (rendering in any order: a first-time render through a fresh wrapper is one more render of the sequence)
+	fresh := 1
+	if tbl := w.coreTableOf(op, tg); tbl != nil {
+		fs, ft := freshRender(tg, tbl)
+		fv := fs + "\x00" + ft
+		if fs == "error" {
+			fv = fs
+		}
+		fresh = b2i(fv == val)
+	}
 	if prev, ok := w.first[key]; ok {
-		return M{"seen": 1, "equal": b2i(prev == val)}
+		return M{"seen": 1, "equal": b2i(prev == val), "fresh": fresh}
 	}
 	w.first[key] = val
-	return M{"seen": 0, "equal": 1}
+	return M{"seen": 0, "equal": 1, "fresh": fresh}
 }
